@@ -7,6 +7,7 @@ package main
 
 import (
 	"bufio"
+	"encoding/binary"
 	"encoding/json"
 	"fmt"
 	"io/ioutil"
@@ -136,6 +137,7 @@ type RunRec struct {
 	Events    []string `json:"events"`         // crash-point event log of this run
 	Listing   []string `json:"listing"`        // wal/snap/checkpoint names found after the death
 	PortRetry int      `json:"port_retry"`
+	Tear      string   `json:"tear,omitempty"` // what the torn-tail simulation did after the death
 	StartMs   int64    `json:"start_ms"`
 	LifeMs    int64    `json:"life_ms"`       // from the start of the process to (just after) its death
 	Log       string   `json:"log,omitempty"` // tail of the child's log when the start failed
@@ -264,6 +266,9 @@ func dumpTo(c *rconn, to time.Duration) ([]string, error) {
 					if err != nil {
 						return nil, err
 					}
+					if g == "nil" {
+						continue // listed by the scan, expired for a read
+					}
 					line = "K " + k + " " + g
 				case "zset":
 					g, _, err := c.do(to, "zrange", full, "0", "-1", "withscores")
@@ -373,7 +378,7 @@ type child struct {
 func startChild(self string, cfg childCfg, evlog string, envCrash string, logPath string) (*child, error) {
 	args := []string{"-child", "-dir", cfg.Dir, "-port", strconv.Itoa(cfg.Port), "-engine", cfg.Engine,
 		"-snapcount", strconv.Itoa(cfg.SnapCount), "-segsize", strconv.FormatInt(cfg.SegSize, 10),
-		"-keep", strconv.Itoa(cfg.Keep), "-optfsync=" + strconv.FormatBool(cfg.OptFsync)}
+		"-keep", strconv.Itoa(cfg.Keep), "-optfsync=" + strconv.FormatBool(cfg.OptFsync), "-waitcompact=" + strconv.FormatBool(cfg.WaitCompact)}
 	if cfg.ID > 0 {
 		args = []string{"-child", "-id", strconv.Itoa(cfg.ID), "-root", cfg.Root, "-port", strconv.Itoa(cfg.Base), "-engine", cfg.Engine,
 			"-snapcount", strconv.Itoa(cfg.SnapCount), "-segsize", strconv.FormatInt(cfg.SegSize, 10),
@@ -494,6 +499,9 @@ func listingOf(dir string, id int) []string {
 			if sub[0] == "rocksdb_backup" && e.Name() == "remote" {
 				continue
 			}
+			if strings.HasSuffix(e.Name(), ".broken") {
+				continue // the copy wal.Repair keeps of a segment whose torn tail it cut off
+			}
 			out = append(out, sub[1]+"/"+e.Name())
 		}
 	}
@@ -564,7 +572,9 @@ type dirJob struct {
 	opsMax    int
 	specs     []string // forced specs (replay), else generated
 	thorough  bool
-	snapCount int // raft snapshot every N applied entries (0: 20)
+	snapCount int    // raft snapshot every N applied entries (0: 20)
+	mode      string // "big": one value above 1 MiB per life; "tear": a torn record behind the WAL's tail after every kill from outside;
+	// "ttl": SETEX with a short expire time followed by INCR / INCRBY shortly before the kill, the restart after the expire time
 }
 
 // spec: "P:<name>:<k>:<stall_ms>"  crash point armed once the restart is verified (k-th hit from then on)
@@ -811,7 +821,7 @@ func runDir(self string, job dirJob, pa *portAlloc, emit func(RunRec)) {
 		panic(err)
 	}
 	defer os.RemoveAll(dir)
-	cfg := childCfg{Dir: dir, Engine: job.engine, SnapCount: 20, SegSize: 8192, Keep: 2, OptFsync: job.optFsync}
+	cfg := childCfg{Dir: dir, Engine: job.engine, SnapCount: 20, SegSize: 8192, Keep: 2, OptFsync: job.optFsync, WaitCompact: strings.Contains(job.mode, "ttl")}
 	if job.snapCount > 0 {
 		cfg.SnapCount = job.snapCount
 	}
@@ -820,6 +830,7 @@ func runDir(self string, job dirJob, pa *portAlloc, emit func(RunRec)) {
 	envFailures := 0
 	slowRetries := 0
 	slowPast := false
+	var lastVolatile time.Time
 	newRec := func(spec string) *RunRec {
 		return &RunRec{Dir: job.id, Run: run, Engine: job.engine, OptFsync: job.optFsync, Spec: spec, Death: "none"}
 	}
@@ -840,6 +851,12 @@ func runDir(self string, job dirJob, pa *portAlloc, emit func(RunRec)) {
 			startEnv = f[1] + ":" + f[2]
 		}
 		rec := newRec(spec)
+		if !lastVolatile.IsZero() {
+			// every key written with an expire time is expired when the next life is read (the oracle counts on it)
+			if w := time.Until(lastVolatile.Add(time.Duration(ttlSeconds)*time.Second + 1500*time.Millisecond)); w > 0 {
+				time.Sleep(w)
+			}
+		}
 		lv := startRun(self, &cfg, pa, dir, rec, startEnv)
 		if rec.Start == "env-failure" {
 			// the machine, not the node: this life of the process ended during its start; it is recorded as a
@@ -942,8 +959,27 @@ func runDir(self string, job dirJob, pa *portAlloc, emit func(RunRec)) {
 			}
 		}
 		if alive {
+			// where the special writes of a job's mode go: a few writes before the kill from outside, or early in the life
+			special := 12
+			if extAfter >= 8 {
+				special = extAfter - 6
+			}
 			for i := 0; i < job.opsMax; i++ {
+				if i == special && strings.Contains(job.mode, "big") {
+					// one value above 1 MiB (the wal encoder has a 1 MiB buffer; raft entries of that size go another way)
+					g.seq++
+					g.pending = append(g.pending, []string{"set", key("a", g.r.Intn(nKeys)), fmt.Sprintf("%s%d.", g.tag, g.seq) + strings.Repeat("v", 1100*1024)})
+				}
+				if i == special && strings.Contains(job.mode, "ttl") {
+					// a key with an expire time, then counters on it: a replay must see it as the live apply saw it (the
+					// expire time is judged with the timestamp of the raft entry), whenever the replay happens
+					ek := key("e", g.r.Intn(nKeys))
+					g.pending = append(g.pending, []string{"setex", ek, strconv.Itoa(ttlSeconds), "10"}, []string{"incr", ek}, []string{"incrby", ek, "5"})
+				}
 				op := OpRec{Cmd: g.next()}
+				if op.Cmd[0] == "setex" && strings.HasPrefix(op.Cmd[1], nsName+":t:e") {
+					lastVolatile = time.Now()
+				}
 				if extAfter >= 0 && i == extAfter {
 					go func(us int) {
 						time.Sleep(time.Duration(us) * time.Microsecond)
@@ -987,6 +1023,10 @@ func runDir(self string, job dirJob, pa *portAlloc, emit func(RunRec)) {
 				rec.Death = "env-exit"
 			}
 		}
+		if strings.Contains(job.mode, "tear") && rec.Death == "external" {
+			// the process died while its next record was being written: a torn record behind the WAL's tail
+			rec.Tear = tornTail(dir, r)
+		}
 		if strings.HasPrefix(spec, "W:") && rec.Death == "external" {
 			// power loss instead of process death: what the WAL's tail segment received after its last fdatasync is gone
 			rec.PowerLoss = powerLoss(dir)
@@ -994,6 +1034,68 @@ func runDir(self string, job dirJob, pa *portAlloc, emit func(RunRec)) {
 		finishRun(dir, lv, rec, emit)
 		run++
 	}
+}
+
+const ttlSeconds = 2
+
+// tornTail writes the beginning of a record behind the last record of the tail WAL segment: the length field of a
+// record of 1200 bytes and the bytes of it up to the next 512-byte sector boundary, zeros behind (what a write that
+// the death of the process, or of the machine, cut at a sector boundary leaves; wal.ReadAll answers ErrUnexpectedEOF
+// and openWAL repairs the segment). Returns what it did.
+func tornTail(dir string, r *hx.Rng) string {
+	walDir := filepath.Join(dir, nsName+"-0", "wal-1")
+	ents, _ := ioutil.ReadDir(walDir)
+	tail := ""
+	nseg := 0
+	for _, e := range ents {
+		if strings.HasSuffix(e.Name(), ".wal") {
+			nseg++
+			if e.Name() > tail {
+				tail = e.Name()
+			}
+		}
+	}
+	if tail == "" {
+		return "no-wal"
+	}
+	fp := filepath.Join(walDir, tail)
+	b, err := ioutil.ReadFile(fp)
+	if err != nil {
+		return "read-failed"
+	}
+	off := int64(0)
+	for off+8 <= int64(len(b)) {
+		l := int64(binary.LittleEndian.Uint64(b[off : off+8]))
+		if l == 0 {
+			break
+		}
+		recBytes := int64(uint64(l) & ^(uint64(0xff) << 56))
+		padBytes := int64(0)
+		if l < 0 {
+			padBytes = int64((uint64(l) >> 56) & 0x7)
+		}
+		if off+8+recBytes+padBytes > int64(len(b)) {
+			return "tail-already-torn"
+		}
+		off += 8 + recBytes + padBytes
+	}
+	const recLen = 1200
+	frame := make([]byte, 8+recLen)
+	binary.LittleEndian.PutUint64(frame[0:8], uint64(recLen))
+	dataOff := off + 8
+	upTo := int(512 - dataOff%512) // bytes of the record that share the sector of its length field
+	for i := 0; i < upTo && i < recLen; i++ {
+		frame[8+i] = byte(1 + r.Intn(255))
+	}
+	fh, err := os.OpenFile(fp, os.O_WRONLY, 0600)
+	if err != nil {
+		return "open-failed"
+	}
+	defer fh.Close()
+	if _, err := fh.WriteAt(frame, off); err != nil {
+		return "write-failed"
+	}
+	return fmt.Sprintf("torn record at %d of %s (%d segments)", off, tail, nseg)
 }
 
 // powerLoss zeroes the tail WAL segment from the offset of the last fdatasync on (the child records name and
@@ -1229,6 +1331,7 @@ func runParent(pc parentCfg) {
 				OpsMax   int      `json:"ops_max"`
 				Specs    []string `json:"specs"`
 				SnapCnt  int      `json:"snap_count"`
+				Mode     string   `json:"mode"`
 			} `json:"jobs"`
 		}
 		if err := json.Unmarshal(b, &rp); err != nil {
@@ -1236,7 +1339,7 @@ func runParent(pc parentCfg) {
 		}
 		for i, j := range rp.Jobs {
 			jobs = append(jobs, dirJob{id: i, seed: j.Seed, engine: j.Engine, optFsync: j.OptFsync, cycles: len(j.Specs),
-				opsMax: j.OpsMax, specs: j.Specs, snapCount: j.SnapCnt})
+				opsMax: j.OpsMax, specs: j.Specs, snapCount: j.SnapCnt, mode: j.Mode})
 		}
 	} else {
 		master := hx.NewRng(pc.Seed)
